@@ -42,18 +42,17 @@ pub open spec fn input_of(f: Function, fwd: bool, l: Loc, p: Loc) -> bool {
     if fwd { pred(f, l, p) } else { succ(f, l, p) }
 }
 
-/// `l` is reached from `s` by exactly `n` steps in the direction of the analysis
-pub open spec fn reach_in(f: Function, fwd: bool, s: Loc, n: nat, l: Loc) -> bool
-    decreases n,
-{
-    if n == 0 { l == s } else { exists|m: Loc| #[trigger] reach_in(f, fwd, s, (n - 1) as nat, m) && step(f, fwd, m, l) }
+/// `p` is a walk of the analysis: consecutive locations are related by `step`
+pub open spec fn fp_walk(f: Function, fwd: bool, p: Seq<Loc>) -> bool {
+    p.len() > 0 && forall|i: int| 0 <= i < p.len() - 1 ==> step(f, fwd, #[trigger] p[i], p[i + 1])
 }
 
-/// THE DOMAIN of the solution: the closure of the start location under `step` (forward: the
-/// locations reachable from the entry location; backward: those from which the exit location is reachable)
+/// THE DOMAIN of the solution: the closure of the start location under `step` - the locations `l` for
+/// which there is a walk start = p[0] -> p[1] -> ... -> l (forward: the locations reachable from the
+/// entry location; backward: those from which the exit location is reachable)
 #[verifier::opaque]
 pub open spec fn fp_closure(f: Function, fwd: bool, l: Loc) -> bool {
-    start_loc(f, fwd) matches Some(s) && exists|n: nat| #[trigger] reach_in(f, fwd, s, n, l)
+    exists|p: Seq<Loc>| #[trigger] fp_walk(f, fwd, p) && Some(p[0]) == start_loc(f, fwd) && p.last() == l
 }
 
 //@ source lib/analysis/fixed_point.rs
